@@ -24,6 +24,7 @@ import (
 const (
 	providerID  = "fake://inst-0"
 	claimName   = "claim"
+	twinName    = "claim-b"
 	holdFin     = "verif.test/hold" // keeps a deleting object without the karpenter finalizer alive in the fake client
 	managedKey  = "karpenter.test.sh/testnodeclass"
 	lbExclude   = corev1.LabelNodeExcludeBalancers
@@ -75,6 +76,7 @@ type world struct {
 	Now   int64
 	Nodes []*wNode
 	Claim *wClaim
+	Twin  *wClaim // a second NodeClaim object with the same provider id (never reconciled by the lifecycle controller)
 	Pods  []*wPod
 	VAs   []*wVA
 	Inst  string // INone IRunning IShutting IGone
@@ -91,6 +93,10 @@ func (w *world) clone() *world {
 	if w.Claim != nil {
 		c := *w.Claim
 		o.Claim = &c
+	}
+	if w.Twin != nil {
+		c := *w.Twin
+		o.Twin = &c
 	}
 	for _, p := range w.Pods {
 		c := *p
@@ -166,8 +172,12 @@ func (w *world) g() string {
 	if w.Claim != nil {
 		cl = "(Some (" + w.Claim.g() + "))"
 	}
-	return fmt.Sprintf("(W %s %s %s %s %s %s false)", gz(w.Now),
-		kit.GListOf(w.Nodes, func(n *wNode) string { return "(" + n.g() + ")" }), cl,
+	tw := "None"
+	if w.Twin != nil {
+		tw = "(Some (" + w.Twin.g() + "))"
+	}
+	return fmt.Sprintf("(W %s %s %s %s %s %s %s false)", gz(w.Now),
+		kit.GListOf(w.Nodes, func(n *wNode) string { return "(" + n.g() + ")" }), cl, tw,
 		kit.GListOf(w.Pods, func(p *wPod) string { return "(" + p.g() + ")" }),
 		kit.GListOf(w.VAs, func(v *wVA) string { return "(" + v.g() + ")" }), w.Inst)
 }
@@ -214,9 +224,11 @@ func mkNode(n *wNode) *corev1.Node {
 
 func clkAt(sec int64) status.ForOption { return status.WithClock(clock.NewFakeClock(at(sec))) }
 
-func mkClaim(c *wClaim, now int64) *v1.NodeClaim {
+func mkClaim(c *wClaim, now int64) *v1.NodeClaim { return mkClaimNamed(claimName, c, now) }
+
+func mkClaimNamed(name string, c *wClaim, now int64) *v1.NodeClaim {
 	o := &v1.NodeClaim{
-		ObjectMeta: metav1.ObjectMeta{Name: claimName, UID: types.UID("claim-uid"), Generation: 1, CreationTimestamp: metav1.NewTime(at(now)),
+		ObjectMeta: metav1.ObjectMeta{Name: name, UID: types.UID(name + "-uid"), Generation: 1, CreationTimestamp: metav1.NewTime(at(now)),
 			Labels: map[string]string{v1.NodePoolLabelKey: "pool"}},
 		Spec: v1.NodeClaimSpec{
 			NodeClassRef: &v1.NodeClassReference{Group: "karpenter.test.sh", Kind: "TestNodeClass", Name: "default"},
@@ -320,6 +332,9 @@ func (w *world) objects() []client.Object {
 	}
 	if w.Claim != nil {
 		objs = append(objs, mkClaim(w.Claim, w.Now))
+	}
+	if w.Twin != nil {
+		objs = append(objs, mkClaimNamed(twinName, w.Twin, w.Now))
 	}
 	pvs := map[int64]bool{}
 	for _, p := range w.Pods {
